@@ -10,6 +10,7 @@ from __future__ import annotations
 
 import copy
 import logging
+import math
 import threading
 from collections.abc import Sized
 from types import ModuleType
@@ -326,7 +327,9 @@ class RemoteAssertionTraceObserver(ex.RemoteExecutionObserver):
             depth: The current recursion depth.
             max_depth: The maximum recursion depth.
         """
-        if isinstance(value, float):
+        if isinstance(value, float) and not math.isnan(value):
+            # NaN is not equal to anything, not even approximately: an assertion on its
+            # value could never pass, so only its type is asserted below.
             trace.add_entry(position, ass.FloatAssertion(source, value))
             return
         if is_assertable(value):
